@@ -34,6 +34,9 @@ func HPathKernel() {
 	var p1, p2 string
 	nd.NoPanic("pathForKey", func() { p1, p2 = st.pathForKey(k1), st.pathForKey(k2) })
 	nd.Assert(nd.Implies(p1 == p2, k1 == k2), "keys that differ never map to the same path")
+	// nor is one key's file a directory on the way to another key's file
+	nd.KnownFinding("C17-fsstore-empty-key-is-a-shard-directory", len(k1) == 0 || len(k2) == 0)
+	nd.Assert(!strings.HasPrefix(filepath.Clean(p2), filepath.Clean(p1)+"/"), "the path of a key is never a directory above the path of another key")
 	c := filepath.Clean(p1)
 	nd.Assert(strings.HasPrefix(c, "/b/"), "the path of a key lies inside the base directory, whatever bytes the key contains")
 	nd.Assert(!strings.HasPrefix(c, "/b/"+stagingDir+"/") && c != "/b/"+stagingDir, "the path of a key is not inside the staging directory")
@@ -360,6 +363,49 @@ func (c *cancelCtx) Err() error {
 		return context.Canceled
 	}
 	return nil
+}
+
+// HAfterCommit: a committed block is final: writes through the stream writer after its commit,
+// a second put of other content under the same key while a reader holds the first open, and a
+// put that fails part-way leave every committed block complete and as committed.
+func HAfterCommit() {
+	ctx := context.Background()
+	st := initStore(nd.Choose("setup", nd.Param("SETUPS", 1)))
+	key := "k1"
+	a, b := nd.Bytes("a", 3), nd.Bytes("b", 3)
+	switch nd.Choose("scenario", 3) {
+	case 0: // late write through the stream writer
+		w, commit, err := st.PutStream(ctx)
+		nd.Assert(err == nil, "put-stream opens")
+		w.Write(a)
+		nd.Assert(commit(key) == nil, "commit")
+		nd.NoPanic("late write", func() { w.Write(b) })
+		got, err := st.Get(ctx, key)
+		nd.Assert(err == nil && nd.EqBytes(got, a), "a write after the commit does not reach the committed block")
+	case 1: // a reader opened before a second put of the same key
+		nd.Assert(st.Put(ctx, key, a) == nil, "put")
+		r, err := st.GetStream(ctx, key)
+		nd.Assert(err == nil, "get-stream")
+		one := make([]byte, 1)
+		r.Read(one)
+		nd.NoPanic("second put", func() { st.Put(ctx, key, b) })
+		rest := readAll(r)
+		nd.Assert(one[0] == a[0] && nd.EqBytes(rest, a[1:]), "a reader that opened a block reads that block to its end, whatever is put meanwhile")
+		got, err := st.Get(ctx, key)
+		nd.Assert(err == nil && nd.Or(nd.EqBytes(got, a), nd.EqBytes(got, b)), "the block under the key is one of the two blocks put, complete")
+	case 2: // a put that fails at any step
+		FS.faultAt = FS.steps + nd.Choose("faultat", 8)
+		err := st.Put(ctx, key, a)
+		FS.faultAt = -1
+		got, gerr := st.Get(ctx, key)
+		if gerr == nil {
+			nd.Assert(nd.EqBytes(got, a), "a block visible after a failed put is complete")
+		}
+		if err == nil {
+			nd.Assert(gerr == nil, "a put that reported success is visible")
+		}
+	}
+	nd.Reach("end")
 }
 
 // HCancelPut: the caller's context is cancelled at any moment of a Put or of a streaming write:
